@@ -447,6 +447,68 @@ func c13BadFrame(c *choice.Ctx, rep *report.R) {
 	rep.State(fmt.Sprintf("bad|%s|%d|%v", kind, bi, answered))
 }
 
+// c13Burst: 90 pipelined queries (below the connection's limit of 100 concurrent queries) that reach the listener in ONE read - far
+// more frames per read event than the enumeration's 1..3 - on the tcp and the gnet handler: every one is framed, answered and
+// answered once, although no further octet arrives on the connection to wake the handler again.
+func c13Burst(rep *report.R) {
+	for _, kind := range []string{"tcp", "gnet"} {
+		for _, n := range []int{63, 64, 65, 90} {
+			desc := fmt.Sprintf("%d pipelined queries in one read on the %s handler", n, kind)
+			rep.Eval("burst: " + desc)
+			v, err := vNewRouter(c03Config("forward"), "u1")
+			if err != nil {
+				rep.Violate("C13:burst:router-start", err.Error(), nil)
+				return
+			}
+			v.ups["u1"].Auto = func(q *upQuery) *upResult {
+				if q.Msg == nil {
+					return &upResult{err: errScripted}
+				}
+				return &upResult{wire: env.Answer(q.Msg, 3, 60).Encode(false)}
+			}
+			var seg []byte
+			for i := 0; i < n; i++ {
+				seg = append(seg, refdns.Frame(refdns.Query(uint16(0x2000+i), refdns.N(fmt.Sprintf("b%d", i), "example", "test"), 1, 1).Encode(false))...)
+			}
+			var written func() []byte
+			if kind == "gnet" {
+				g := v.gnetClient(v.newGnetServer(0, 300*time.Second), vClientV4, vLocalV4)
+				g.Send(seg)
+				written = g.Written
+			} else {
+				sc := v.tcpClient(v.newTCPServer(0, 300*time.Second), vClientV4, vLocalV4)
+				sc.Send(seg)
+				written = func() []byte { return sc.impl.Written() }
+			}
+			wait()
+			hsleep(7 * time.Second)
+			wait()
+			fs, rest := env.SplitFrames(written())
+			seen := map[uint16]int{}
+			for _, f := range fs {
+				if m, err := refdns.Decode(f); err == nil {
+					seen[m.ID]++
+				}
+			}
+			missing, dup := 0, 0
+			for i := 0; i < n; i++ {
+				switch seen[uint16(0x2000+i)] {
+				case 0:
+					missing++
+				case 1:
+				default:
+					dup++
+				}
+			}
+			if missing > 0 || dup > 0 || rest != 0 || len(fs) != n {
+				rep.Violate("C13:burst:"+kind+":response-count", fmt.Sprintf("%s: %d response frames (%d trailing octets), %d queries without a response, %d answered more than once", desc, len(fs), rest, missing, dup), map[string]any{"Choices": []int{}, "Burst": n})
+			}
+			v.Close()
+			wait()
+		}
+	}
+}
+
 func TestVerifC13(t *testing.T) {
 	rep := report.New("C13 stream framing")
 	defer rep.Write()
@@ -471,6 +533,11 @@ func TestVerifC13(t *testing.T) {
 		}
 		st = runExplore(t, rep, -1, func(c *choice.Ctx) { c13BadFrame(c, rep) })
 		rep.Count("executions_bad_frame", st.Executions)
+		if sh, _ := report.Shard(); sh == 0 && report.ReplayFile() == nil {
+			hmu.Lock()
+			c13Burst(rep)
+			hmu.Unlock()
+		}
 	})
 	rep.Sample(map[string]any{"listener": "gnet", "k": 2, "segments": "[1 40 3 ...]", "limit": 1, "expect": "id 0x1300 answered, id 0x1301 REFUSED, two well-formed frames"})
 }
